@@ -94,6 +94,12 @@ var optionSets = []model.Options{
 	{HardLimit: 3, SoftQuota: 1, BurstCredit: 2},
 	{HardLimit: 3, SoftQuota: 2, BurstCredit: 0.5},
 	{HardLimit: 4, SoftQuota: 2, BurstCredit: 1},
+	// soft quota == hard limit (also what a configuration with only a hard limit
+	// defaults to): no room for bursts at the start, but the quota adapts downwards
+	// once the queue drains and later Adds above it have to be paid with credit
+	{HardLimit: 3, SoftQuota: 3, BurstCredit: 0},
+	{HardLimit: 4, SoftQuota: 4, BurstCredit: 0},
+	{HardLimit: 4},
 }
 
 // thoroughExtra are added in the thorough tier.
